@@ -1,0 +1,172 @@
+//! Verification hook (only compiled with `--cfg zeep_verif`): a canonical text dump of a `RustDocument`,
+//! so that an external model of the reader can be compared with the document itself and not only with the
+//! generated text. Strings are hex-encoded; hash-map entries are sorted. Not part of the tool.
+use super::{
+    Namespace,
+    doc::RustDocument,
+    field::Field,
+    node::RustNode,
+    soap::binding::SoapEnvelope,
+    structures::{RustType, complex::ComplexProps, element::ElementType},
+};
+use std::fmt::Write as _;
+
+fn hx(s: &str) -> String {
+    if s.is_empty() {
+        return "''".to_string();
+    }
+    s.bytes().fold(String::new(), |mut acc, b| {
+        let _ = write!(acc, "{b:02x}");
+        acc
+    })
+}
+
+fn ns(n: Option<&Namespace>) -> String {
+    n.map_or_else(|| "-".to_string(), |n| hx(&n.namespace))
+}
+
+fn opt(s: Option<&String>) -> String {
+    s.map_or_else(|| "-".to_string(), |s| hx(s))
+}
+
+fn field(out: &mut String, owner: &str, j: usize, f: &Field) {
+    let _ = writeln!(
+        out,
+        "FIELD\t{owner}\t{j}\t{}\t{}\t{}\t{}{}{}{}{}\t{}",
+        hx(&f.xml_name),
+        hx(&f.rust_name),
+        hx(&f.rust_type.to_string()),
+        u8::from(f.is_optional),
+        u8::from(f.is_vec),
+        u8::from(f.is_attribute),
+        u8::from(f.is_choice),
+        u8::from(f.is_any),
+        ns(f.target_namespace.as_deref())
+    );
+}
+
+fn complex(out: &mut String, owner: &str, p: &ComplexProps) {
+    let _ = writeln!(out, "CPX\t{owner}\t{}\t{}\t{}", hx(&p.xml_name), ns(p.target_namespace.as_deref()), opt(p.comment.as_ref()));
+    for (j, f) in p.fields.iter().enumerate() {
+        field(out, owner, j, f);
+    }
+}
+
+fn node_name(n: &RustNode) -> String {
+    n.xml_name().map_or_else(|| "-".to_string(), hx)
+}
+
+fn node(out: &mut String, owner: &str, n: &RustNode) {
+    let kind = match &n.rust_type {
+        RustType::Ignore => "ignore",
+        RustType::Complex(_) => "complex",
+        RustType::Simple(_) => "simple",
+        RustType::Element(_) => "element",
+    };
+    let _ = writeln!(out, "NODE\t{owner}\t{kind}\t{}\t{}", node_name(n), ns(n.in_namespace.as_deref()));
+    match &n.rust_type {
+        RustType::Ignore => {}
+        RustType::Complex(p) => complex(out, owner, p),
+        RustType::Simple(p) => {
+            let r = p.restrictions.as_ref().map_or_else(
+                || "-".to_string(),
+                |r| {
+                    format!(
+                        "{}|{}|{}|{}|{}|{}|{}|{}",
+                        opt(r.min_inclusive.as_ref()),
+                        opt(r.max_inclusive.as_ref()),
+                        opt(r.min_exclusive.as_ref()),
+                        opt(r.max_exclusive.as_ref()),
+                        opt(r.length.as_ref()),
+                        opt(r.min_length.as_ref()),
+                        opt(r.max_length.as_ref()),
+                        r.enumeration.as_ref().map_or_else(|| "-".to_string(), |e| e.iter().map(|v| hx(v)).collect::<Vec<_>>().join(","))
+                    )
+                },
+            );
+            let _ = writeln!(
+                out,
+                "SIMPLE\t{owner}\t{}\t{}\t{}\t{}\t{r}",
+                hx(&p.xml_name),
+                hx(&p.rust_type.to_string()),
+                ns(p.target_namespace.as_deref()),
+                opt(p.comment.as_ref())
+            );
+        }
+        RustType::Element(p) => match &p.element_type {
+            ElementType::RustType(t) => {
+                let _ = writeln!(out, "ELEMENT\t{owner}\t{}\trust\t{}", hx(&p.xml_name), hx(&t.to_string()));
+            }
+            ElementType::ComplexType(c) => {
+                let _ = writeln!(out, "ELEMENT\t{owner}\t{}\tcomplex", hx(&p.xml_name));
+                complex(out, owner, c);
+            }
+            ElementType::Unsupported => {
+                let _ = writeln!(out, "ELEMENT\t{owner}\t{}\tunsupported", hx(&p.xml_name));
+            }
+        },
+    }
+}
+
+fn envelope(e: &SoapEnvelope) -> String {
+    let hs = e.headers.iter().map(|(p, n)| format!("{}={}", hx(p), node_name(n))).collect::<Vec<_>>().join(",");
+    format!("body={} headers={hs}", node_name(&e.body))
+}
+
+impl RustDocument {
+    /// the whole document, one fact per line
+    #[must_use]
+    pub fn verif_dump(&self) -> String {
+        let mut out = String::new();
+        for n in &self.namespaces {
+            let _ = writeln!(out, "NS\t{}\t{}\t{}", hx(&n.namespace), hx(&n.abbreviation), hx(&n.rust_mod_name));
+        }
+        for n in &self.target_namespaces {
+            let _ = writeln!(out, "TNS\t{}\t{}", hx(&n.namespace), hx(&n.abbreviation));
+        }
+        let _ = writeln!(out, "CUR\t{}", ns(self.current_target_namespace.as_deref()));
+        let _ = writeln!(out, "DEF\t{}", opt(self.default_namespace.as_ref()));
+        let mut lookup: Vec<_> = self.namespace_lookup.iter().collect();
+        lookup.sort_by(|a, b| a.0.cmp(b.0));
+        for (p, n) in lookup {
+            let _ = writeln!(out, "LOOKUP\t{}\t{}\t{}", hx(p), hx(&n.namespace), hx(&n.abbreviation));
+        }
+        let _ = writeln!(out, "RESOLVING\t{}", self.resolving.len());
+        for (i, n) in self.nodes.iter().enumerate() {
+            node(&mut out, &format!("n{i}"), n);
+        }
+        let _ = writeln!(out, "KNOWN\t{}", self.known_nodes.len());
+        for m in &self.soap_messages {
+            let parts = m.parts.iter().map(|(p, (n, s))| format!("{}={}@{}", hx(p), node_name(n), ns(s.as_deref()))).collect::<Vec<_>>().join(",");
+            let _ = writeln!(out, "MSG\t{}\t{parts}", hx(&m.xml_name));
+        }
+        for p in &self.soap_ports {
+            let ops = p
+                .operations
+                .iter()
+                .map(|(o, v)| format!("{}:{}/{}", hx(o), hx(&v.input.message.xml_name), v.output.as_ref().map_or_else(|| "-".to_string(), |m| hx(&m.message.xml_name))))
+                .collect::<Vec<_>>()
+                .join(",");
+            let _ = writeln!(out, "PORT\t{}\t{ops}", hx(&p.xml_name));
+        }
+        for b in &self.soap_bindings {
+            let tns = b.target_namespaces.iter().map(|n| hx(&n.namespace)).collect::<Vec<_>>().join(",");
+            let _ = writeln!(out, "BINDING\t{}\t{tns}", hx(&b.name));
+            for (o, v) in &b.operations {
+                let _ = writeln!(
+                    out,
+                    "OP\t{}\t{}\t{}\tin {}\tout {}",
+                    hx(&b.name),
+                    hx(o),
+                    v.action.as_ref().map_or_else(|| "-".to_string(), |a| hx(a.as_str())),
+                    envelope(&v.input),
+                    v.output.as_ref().map_or_else(|| "-".to_string(), envelope)
+                );
+            }
+        }
+        for s in &self.soap_services {
+            let _ = writeln!(out, "SERVICE\t{}\t{}\t{}", hx(&s.name), hx(&s.binding.name), hx(s.location.as_str()));
+        }
+        out
+    }
+}
